@@ -216,6 +216,31 @@ example : get_equinox_solstice mkEpoch (fun _ => 0) 1 2000 "spring" = .ok (some 
 
 /-! ## Equation of time -/
 
+/-- The mean longitude used by `equation_of_time` is Meeus' L0 (28.2) — every coefficient, written
+    from the book in Spec/SunEvents.lean — at τ = (JDE − 2451545)/365250, brought into [0°, 360°) by
+    whole turns, for EVERY instant. -/
+theorem eot_l0_spec (jde : ℝ) :
+    0 ≤ eot_l0 jde ∧ eot_l0 jde < 360 ∧
+    ∃ n : ℤ, eot_l0 jde = Spec.SunEvents.meanLongitude ((jde - 2451545) / 365250) - 360 * n := by
+  unfold eot_l0
+  simp only
+  obtain ⟨r0, r1⟩ := aToPositive_range (aReduce_abs_lt (280.4664567 + (jde - 2451545.0) / 365250.0 *
+    (360007.6982779 + (jde - 2451545.0) / 365250.0 * (0.03032028 + (jde - 2451545.0) / 365250.0 *
+    (1.0 / 49931.0 + (jde - 2451545.0) / 365250.0 * (-1.0 / 15300.0 - (jde - 2451545.0) / 365250.0 * 1.0 / 2000000.0))))))
+  refine ⟨r0, r1, ?_⟩
+  obtain ⟨n1, h1⟩ := aReduce_congr (280.4664567 + (jde - 2451545.0) / 365250.0 *
+    (360007.6982779 + (jde - 2451545.0) / 365250.0 * (0.03032028 + (jde - 2451545.0) / 365250.0 *
+    (1.0 / 49931.0 + (jde - 2451545.0) / 365250.0 * (-1.0 / 15300.0 - (jde - 2451545.0) / 365250.0 * 1.0 / 2000000.0)))))
+  obtain ⟨n2, h2⟩ := aToPositive_congr (aReduce (280.4664567 + (jde - 2451545.0) / 365250.0 *
+    (360007.6982779 + (jde - 2451545.0) / 365250.0 * (0.03032028 + (jde - 2451545.0) / 365250.0 *
+    (1.0 / 49931.0 + (jde - 2451545.0) / 365250.0 * (-1.0 / 15300.0 - (jde - 2451545.0) / 365250.0 * 1.0 / 2000000.0))))))
+  refine ⟨n1 + n2, ?_⟩
+  rw [h2, h1]
+  unfold Spec.SunEvents.meanLongitude
+  push_cast
+  norm_num
+  ring
+
 /-- "the reduction brings the value into its documented interval": `e - 360.0 * round(e / 360.0)`
     (floats, `round` to the nearest int with ties to even) lies in [−180°, 180°] — both ends occur:
     180 stays 180, 540 becomes −180 — and differs from `e` by a whole number of turns, for EVERY `e`. -/
@@ -644,5 +669,49 @@ theorem rts_order (lon lat a1 d1 a2 d2 a3 d3 h0 dt th0 c r t s m0 : ℝ)
     rw [abs_lt] at g1 g2
     rw [hrv, htv, hsv]
     constructor <;> linarith [g1.1, g1.2, g2.1, g2.2]
+
+/-- The interpolation across the 0°/360° wrap, for ALL tabular values: the two differences it uses are
+    the tabular differences brought into [−180°, 180°] by whole turns (so 359° → 1° counts as +2°, not
+    −358°), the same for every interpolating factor `n`, and the result is `y2 + n/2·(a + b + n·(b − a))`
+    as an Angle. -/
+theorem rts_interpol_wrapped (y1 y2 y3 : ℝ) :
+    ∃ a b : ℝ, -180 ≤ a ∧ a ≤ 180 ∧ -180 ≤ b ∧ b ≤ 180 ∧
+      (∃ k : ℤ, a = y2 - y1 - 360 * k) ∧ (∃ k : ℤ, b = y3 - y2 - 360 * k) ∧
+      ∀ n : ℝ, rts_interpol n y1 y2 y3 = aReduce (y2 + n * (a + b + n * (b - a)) / 2) := by
+  obtain ⟨a1, a2, a3⟩ := wrap180_range (y2 - y1)
+  obtain ⟨b1, b2, b3⟩ := wrap180_range (y3 - y2)
+  refine ⟨wrap180 (y2 - y1), wrap180 (y3 - y2), a1, a2, b1, b2, a3, b3, ?_⟩
+  intro n
+  unfold rts_interpol aAdd wrap180
+  norm_num
+
+/-- A right ascension crossing 0°: (359°, 1°, 3°) interpolated half a day after the middle value is 2°. -/
+example : rts_interpol (1 / 2) 359 1 3 = 2 := by
+  have h1 : roundHE (((1 : ℝ) - 359) / 360.0) = -1 := by
+    have hf : pfloor (((1 : ℝ) - 359) / 360.0) = -1 := by
+      unfold pfloor; exact Int.floor_eq_iff.mpr ⟨by norm_num, by norm_num⟩
+    unfold roundHE plt ofInt
+    simp only [hf]
+    norm_num
+  have h2 : roundHE (((3 : ℝ) - 1) / 360.0) = 0 := roundHE_zero (by rw [abs_of_pos] <;> norm_num)
+  unfold rts_interpol aAdd
+  simp only [h1, h2, ofInt]
+  norm_num
+  exact aReduce_of_abs_lt (by norm_num)
+
+/-- The refinement runs exactly TWICE: a successful `times_rise_transit_set` returns 24 × the second
+    iterate of `rts_iter` started from `check_value` of `m0`, `m0 − H0/360`, `m0 + H0/360`, in the order
+    (rise, transit, set). -/
+theorem rts_two_passes (lon lat a1 d1 a2 d2 a3 d3 h0 dt th0 c r t s : ℝ)
+    (h : rts_times lon lat a1 d1 a2 d2 a3 d3 h0 dt th0 c = .ok (r, t, s)) :
+    ∃ m0 b0 b1 b2 s1 n0 n1 n2,
+      aDivF (aSub (aAdd a2 lon) th0) 360.0 = .ok m0 ∧
+      rts_check_value m0 = some b0 ∧
+      rts_check_value (m0 - aToPositive (aOfRadians (pacos c)) / 360.0) = some b1 ∧
+      rts_check_value (m0 + aToPositive (aOfRadians (pacos c)) / 360.0) = some b2 ∧
+      rts_iter lon lat a1 d1 a2 d2 a3 d3 h0 dt th0 (b0, b1, b2) = .ok s1 ∧
+      rts_iter lon lat a1 d1 a2 d2 a3 d3 h0 dt th0 s1 = .ok (n0, n1, n2) ∧
+      r = n1 * 24 ∧ t = n0 * 24 ∧ s = n2 * 24 :=
+  rts_times_ok h
 
 end Pymeeus.C14
